@@ -464,6 +464,14 @@ func (fr *Frame) preludeCall(st *State, name string, fn *ssa.Function, args []Va
 			return Val{T: ok}, true
 		}
 		return Val{T: val}, true
+	case "__libFailN":
+		return Val{T: ex.get(st, "LibFailN", SInt)}, true
+	case "__fileClosed":
+		return Val{T: Select(ex.get(st, "FileClosed", ArraySort(SRef, SBool)), args[0].T)}, true
+	case "__callRecvOf":
+		return Val{T: Select(ex.get(st, "CallRecv_"+sanitize(constString(cc.Args[0])), ArraySort(SInt, SRef)), args[1].T)}, true
+	case "__callStrOf":
+		return Val{T: Select(ex.get(st, "CallStr_"+sanitize(constString(cc.Args[0])), ArraySort(SInt, SStr)), args[1].T)}, true
 	case "__callArg2Of":
 		return Val{T: Select(ex.get(st, "CallArgB_"+sanitize(constString(cc.Args[0])), ArraySort(SInt, SRef)), args[1].T)}, true
 	case "__callArgOf":
@@ -694,6 +702,15 @@ func (fr *Frame) applyContract(st *State, fn *ssa.Function, c *LoadedContract, a
 		first := 0
 		if fn.Signature.Recv() != nil {
 			first = 1
+		}
+		if first == 1 && len(args) > 0 && args[0].T != nil && args[0].T.Sort == SRef {
+			ex.set(st, "CallRecv"+sfx, Store(ex.get(st, "CallRecv"+sfx, ArraySort(SInt, SRef)), n, args[0].T))
+		}
+		for k := first; k < len(args); k++ {
+			if args[k].T != nil && args[k].T.Sort == SStr {
+				ex.set(st, "CallStr"+sfx, Store(ex.get(st, "CallStr"+sfx, ArraySort(SInt, SStr)), n, args[k].T))
+				break
+			}
 		}
 		nth := 0
 		for k := first; k < len(args) && nth < 2; k++ {
@@ -978,7 +995,7 @@ func (fr *Frame) loopMod(li *loopInfo, st *State) map[string]bool {
 
 // logCounterOf names the counter component of an append-only ghost log component ("" if comp is not one).
 func logCounterOf(comp string) string {
-	for _, p := range []string{"CallFn", "CallRet", "CallArgB", "CallArg", "CallRes"} {
+	for _, p := range []string{"CallFn", "CallRet", "CallArgB", "CallArg", "CallRes", "CallRecv", "CallStr"} {
 		if comp == p {
 			return "CallN"
 		}
@@ -986,7 +1003,7 @@ func logCounterOf(comp string) string {
 			return "CallN_" + strings.TrimPrefix(comp, p+"_")
 		}
 	}
-	if comp == "CallN" || strings.HasPrefix(comp, "CallN_") || strings.HasPrefix(comp, "LogN_") {
+	if comp == "CallN" || strings.HasPrefix(comp, "CallN_") || strings.HasPrefix(comp, "LogN_") || comp == "LibFailN" {
 		return comp
 	}
 	if strings.HasPrefix(comp, "Log_") {
